@@ -3,7 +3,7 @@ CONSTANTS
   Sizes = {1, 2, 3, 4}
   IpcModes = {FALSE}
   Names = {"Util", "Webvis"}
-  GivenIds = {"a", "Util"}
+  GivenIds = {"Util"}
   NumIds = {"Util"}
   SrcForms = {"absent", "ref", "self"}
   RefSuffixes = {""}
